@@ -329,8 +329,8 @@ def run(tier: str, seed: int) -> int:
                 if e["ret"]["pos"] or e["ret"]["neg"]:
                     chk.nontrivial.add(("trace", t["meta"]["conn"]["kind"], t["meta"]["variant"],
                                         str(e["st"]), str(e["op"]["r"])))
-        first = dict(traces[0]) if traces else None
         rej = stdp_traces.validate(chk, "STDPTrace", traces, "trace", shards=4 if quick else 8)
+        first = stdp_traces.accepted_trace(traces)
         chk.traces += len(traces)
         chk.evaluations += sum(len(t["ev"]) for t in traces)
         chk.note(f"trace validation: {len(traces)} per-weight traces {kinds}, rejected lines={rej}")
